@@ -136,6 +136,8 @@ for _pid, _only, _must in [
 # C06 also owns the kill-order probe: scheduling points inside the termination clean-up
 PROPS['C06']['modules'] = ['Vivid.Props.C06', 'Vivid.Props.C06Global', 'Vivid.Props.M10Global']
 PROPS['C05']['modules'] = ['Vivid.Props.C05', 'Vivid.Props.M10Global']
+# C05 also owns the launch-order probe: the enqueue of a system message as a scheduling point while actors are spawned
+PROPS['C05']['engines'].append(dict(name='launchorder', nomodel=True, must_hit=['variant:0', 'variant:2', 'variant:5', 'variant:7']))
 PROPS['C19']['modules'] = ['Vivid.Props.C19', 'Vivid.Props.C19C20Global']
 PROPS['C09']['modules'] = ['Vivid.Props.C09', 'Vivid.Props.C09Global']
 PROPS['C08']['modules'] = ['Vivid.Props.C08', 'Vivid.Props.C08Frame']
